@@ -89,6 +89,10 @@ func propC05(t *rapid.T) {
 		recv.SetCopyOnWrite(true)
 		recvName = "reused(copy-on-write on)"
 	}
+	if recvClass != 0 {
+		recv.ToBytes() // a used bitmap has typically been written before: anything it remembers from that is stale after the decode
+		recv.GetSerializedSizeInBytes()
+	}
 	chunking := []int{1 << 20}
 	cookieVariant := false
 	var consumed int
@@ -164,6 +168,26 @@ func propC05(t *rapid.T) {
 	}
 	if oldLive != nil && !oldLive.BufferIntact() {
 		fail("%s: reading into the reused receiver wrote to the buffer it previously viewed", edesc)
+	}
+	// written again, the decoded bitmap gives a conformant stream of the same set (independent decoder) of the announced size
+	if rb2, err := recv.ToBytes(); err != nil {
+		fail("%s: the decoded bitmap cannot be serialized again: %v", edesc, err)
+	} else if ch2, used2, err := spec.DecodePortable(rb2, false); err != nil || used2 != len(rb2) || !spec.SetOf(ch2).Equal(m) {
+		fail("%s: the decoded bitmap, serialized again, is not a conformant stream of the same set (err=%v)", edesc, err)
+	} else if uint64(len(rb2)) != recv.GetSerializedSizeInBytes() {
+		fail("%s: the decoded bitmap serializes to %d bytes, GetSerializedSizeInBytes=%d", edesc, len(rb2), recv.GetSerializedSizeInBytes())
+	}
+	if entry == 4 {
+		// a second, unrelated FromBase64 must not disturb the bitmap decoded first
+		other := roaring.BitmapOf(7, 8, 9, 1<<20)
+		os64, _ := other.ToBase64()
+		o2 := roaring.New()
+		if _, err := o2.FromBase64(os64); err != nil || !o2.Equals(other) {
+			fail("FromBase64 of a small bitmap: err=%v", err)
+		}
+		if d := live.Check(recv, m); d != "" {
+			fail("%s: the bitmap decoded first changed when another bitmap was decoded from Base64 afterwards: %s", edesc, d)
+		}
 	}
 	// the copying entry points must not keep the caller's bytes (encoding.BinaryUnmarshaler: "UnmarshalBinary
 	// must copy the data if it wishes to retain the data after returning"; only the FromBuffer family is
